@@ -55,14 +55,28 @@ package didsubject
 // tx2: after a failed commit every document version of this operation is deleted; otherwise the change records.
 //@ func (*SqlManager).transactionHelper$2
 //@   prop C13
-//@   call (*gorm.DB).Delete #1 requires [versions-deleted-only-after-a-failed-commit] !isNilIface(errManager) && arg(0) == ret(call (*gorm.DB).Where #1) && arg(call (*gorm.DB).Where #1, 0) == tx
-//@        && arg(call (*gorm.DB).Where #1, 1) == any("id = ?") && len(arg(call (*gorm.DB).Where #1, 2)) == 1 && arg(call (*gorm.DB).Where #1, 2)[0] == any(change.DIDDocumentVersionID)
-//@        && typeOf(arg(1)) == *orm.DidDocument
-//@   call (*gorm.DB).Delete #2 requires [change-records-deleted-only-after-all-commits-succeeded] isNilIface(errManager) && arg(0) == ret(call (*gorm.DB).Where #2) && arg(call (*gorm.DB).Where #2, 0) == tx
-//@        && arg(call (*gorm.DB).Where #2, 1) == any("transaction_id = ?") && len(arg(call (*gorm.DB).Where #2, 2)) == 1 && arg(call (*gorm.DB).Where #2, 2)[0] == any(change.TransactionID)
+//@   call deleteDocumentVersion #1 requires [versions-deleted-only-after-a-failed-commit] !isNilIface(errManager) && arg(0) == tx && same(arg(1), change)
+//@   call (*gorm.DB).Delete #1 requires [change-records-deleted-only-after-all-commits-succeeded] isNilIface(errManager) && arg(0) == ret(call (*gorm.DB).Where #1) && arg(call (*gorm.DB).Where #1, 0) == tx
+//@        && arg(call (*gorm.DB).Where #1, 1) == any("transaction_id = ?") && len(arg(call (*gorm.DB).Where #1, 2)) == 1 && arg(call (*gorm.DB).Where #1, 2)[0] == any(change.TransactionID)
 //@        && typeOf(arg(1)) == *orm.DIDChangeLog
 //@   ensures [after-a-failed-commit-every-version-is-deleted] isNilIface(result) && !isNilIface(errManager) ==> $done1
-//@   ensures [a-failed-delete-is-reported] did(call (*gorm.DB).Delete #1) && !isNilIface(ret(call (*gorm.DB).Delete #1).Error) ==> !isNilIface(result)
+//@   ensures [a-failed-delete-is-reported] did(call deleteDocumentVersion #1) && !isNilIface(ret(call deleteDocumentVersion #1)) ==> !isNilIface(result)
+
+// Undoing one change: a DID that the change CREATED is deleted as a whole (the did row; its document
+// version and change record follow by cascade, which is the database's) - otherwise the subject keeps
+// DIDs without a document and can never be created again; for any other change only the document
+// version of the change is deleted. The statement's error is the result.
+//@ func deleteDocumentVersion
+//@   prop C13
+//@   modifies nothing
+//@   call (*gorm.DB).Delete #1 requires [a-created-did-is-deleted-as-a-whole] change.Type == orm.DIDChangeCreated && typeOf(arg(1)) == *orm.DID
+//@        && arg(0) == ret(call (*gorm.DB).Where #1) && arg(call (*gorm.DB).Where #1, 0) == tx && arg(call (*gorm.DB).Where #1, 1) == any("id = ?")
+//@        && len(arg(call (*gorm.DB).Where #1, 2)) == 1 && arg(call (*gorm.DB).Where #1, 2)[0] == any(change.DIDDocumentVersion.DID.ID)
+//@   call (*gorm.DB).Delete #2 requires [otherwise-only-the-version-of-the-change] change.Type != orm.DIDChangeCreated && typeOf(arg(1)) == *orm.DidDocument
+//@        && arg(0) == ret(call (*gorm.DB).Where #2) && arg(call (*gorm.DB).Where #2, 0) == tx && arg(call (*gorm.DB).Where #2, 1) == any("id = ?")
+//@        && len(arg(call (*gorm.DB).Where #2, 2)) == 1 && arg(call (*gorm.DB).Where #2, 2)[0] == any(change.DIDDocumentVersionID)
+//@   ensures [a-created-did-does-not-outlive-its-abandoned-create] change.Type == orm.DIDChangeCreated ==> did(call (*gorm.DB).Delete #1) && result == ret(call (*gorm.DB).Delete #1).Error
+//@   ensures [the-abandoned-version-is-deleted] change.Type != orm.DIDChangeCreated ==> did(call (*gorm.DB).Delete #2) && result == ret(call (*gorm.DB).Delete #2).Error
 
 //@ func (*SqlManager).transactionHelper
 //@   prop C13
@@ -111,9 +125,7 @@ package didsubject
 // 'committed' must not overwrite an earlier 'not committed')
 //@   loop @IsCommitted invariant committed == true
 //@   call (MethodManager).IsCommitted #1 requires [asked-of-the-changes-own-method] arg(0) == r.MethodManagers[change.Method()] && same(arg(2), change)
-//@   call (*gorm.DB).Delete #1 requires [versions-deleted-only-for-an-uncommitted-set] committed == false && typeOf(arg(1)) == *orm.DidDocument
-//@        && arg(0) == ret(call (*gorm.DB).Where #2) && arg(call (*gorm.DB).Where #2, 0) == tx && arg(call (*gorm.DB).Where #2, 1) == any("id = ?")
-//@        && len(arg(call (*gorm.DB).Where #2, 2)) == 1 && arg(call (*gorm.DB).Where #2, 2)[0] == any(change.DIDDocumentVersionID)
-//@   call (*gorm.DB).Delete #2 requires [records-deleted-after-the-set-was-judged] typeOf(arg(1)) == *orm.DIDChangeLog && arg(0) == ret(call (*gorm.DB).Where #3) && arg(call (*gorm.DB).Where #3, 0) == tx
-//@        && arg(call (*gorm.DB).Where #3, 1) == any("transaction_id = ?") && len(arg(call (*gorm.DB).Where #3, 2)) == 1 && arg(call (*gorm.DB).Where #3, 2)[0] == any(transactionID)
+//@   call deleteDocumentVersion #1 requires [versions-deleted-only-for-an-uncommitted-set] committed == false && arg(0) == tx && same(arg(1), change)
+//@   call (*gorm.DB).Delete #1 requires [records-deleted-after-the-set-was-judged] typeOf(arg(1)) == *orm.DIDChangeLog && arg(0) == ret(call (*gorm.DB).Where #2) && arg(call (*gorm.DB).Where #2, 0) == tx
+//@        && arg(call (*gorm.DB).Where #2, 1) == any("transaction_id = ?") && len(arg(call (*gorm.DB).Where #2, 2)) == 1 && arg(call (*gorm.DB).Where #2, 2)[0] == any(transactionID)
 //@   ensures [an-error-aborts-the-sweep] (did(call (MethodManager).IsCommitted #1) && !isNilIface(ret(call (MethodManager).IsCommitted #1).1)) ==> !isNilIface(result)
